@@ -174,3 +174,38 @@ Definition static_bad (x : static_case) : list (nat * exres) :=
   let '(c, t, ex, wi) := x in
   map (fun y : nat * exres => (fst y, exiting c t (fst y)))
       (filter (fun y : nat * exres => negb (exres_eqb (exiting c t (fst y)) (snd y))) ex).
+
+(* join: the REAL _contexts_active_by_trickery run on a certified observation, with the ctypes
+   reads of inspect_frame replaced by the certificate's abstract stack (bound exit methods of
+   per-site dummy managers) and the real exception-table walk / trim code extracted from
+   inspect_frame's source; compared with M_Analysis.trickery / blocks / trim_depth *)
+Definition view := list (option nat * bool * bool).     (* (site the obj belongs to, is_async, is_exiting) *)
+Definition tres_view (r : tres unit) : option (option view) :=   (* None = raised; Some None = warned *)
+  match r with
+  | TOk l => Some (Some (map (fun x : ctxv unit =>
+                 (if c_exiting x then None else Some (c_from x), c_async x, c_exiting x)) l))
+  | TWarn => Some None
+  | TFail => None
+  end.
+Definition view_eqb (a b : view) : bool :=
+  list_eqb (fun x y : option nat * bool * bool =>
+              option_eqb Nat.eqb (fst (fst x)) (fst (fst y)) && Bool.eqb (snd (fst x)) (snd (fst y))
+              && Bool.eqb (snd x) (snd y)) a b.
+Definition join_obs := (bool * nat * list (val unit) * option (option view) * option (list (nat * nat)) * nat)%type.
+Definition join_case := (code * table * list join_obs)%type.
+Definition join_obs_ok (c : code) (t : table) (o : join_obs) : bool :=
+  let '(running, lasti, st, pyres, pyblocks, pytrim) := o in
+  option_eqb (option_eqb view_eqb) (tres_view (trickery c t running lasti st)) pyres
+  && option_eqb (list_eqb (fun x y : nat * nat => (fst x =? fst y) && (snd x =? snd y))) (blocks t lasti) pyblocks
+  && (trim_depth t lasti =? pytrim).
+Definition join_ok (x : join_case) : bool := let '(c, t, l) := x in forallb (join_obs_ok c t) l.
+Definition join_mismatches (cases : list join_case) : list nat := false_indices 0 (map join_ok cases).
+Definition join_nontrivial (cases : list join_case) : nat :=
+  count_true (map (fun x : join_case => let '(_, _, l) := x in
+     existsb (fun o : join_obs => let '(_, _, _, r, _, _) := o in
+                match r with Some (Some (_ :: _)) => true | _ => false end) l) cases).
+Definition join_bad (x : join_case) : list (nat * option (option view) * option (list (nat * nat)) * nat) :=
+  let '(c, t, l) := x in
+  map (fun o : join_obs => let '(running, lasti, st, _, _, _) := o in
+         (lasti, tres_view (trickery c t running lasti st), blocks t lasti, trim_depth t lasti))
+      (filter (fun o => negb (join_obs_ok c t o)) l).
